@@ -28,6 +28,7 @@ def sa_snapshot(sa, with_dpd=False):
         'request': bytes(sa.request.to_bytes()).hex() if (sa.request is not None and sa.state.name in WAITING) else None,
         'new_ike_sa': bytes(sa.new_ike_sa.my_spi).hex() if sa.new_ike_sa is not None else None,
         'keys': tuple(sa.ike_sa_keyring).__hash__() if sa.ike_sa_keyring is not None else None,
+        'addresses': (str(sa.my_addr), str(sa.peer_addr)),       # where its requests, retransmissions and kernel SAs go
     }
     if with_dpd:
         d['start_dpd_at'] = sa.start_dpd_at
